@@ -1721,6 +1721,7 @@ class ReactionSystem:
             material, self._basis, self._phases, self.chemicals
         )
         preconverted_material = values if original is not None else values.copy()
+        if config: material._imol.reset_chemicals(*config) # Only a copy is needed from here on
         reactions = self.reactions
         for i, rxn in enumerate(reactions):
             if i == index: break
